@@ -266,7 +266,13 @@ def run_check(prop: str, tier: str, seed: int, replay_path: Optional[str] = None
 
     # floors: a run that observed too little is inconclusive, not "held"
     floors = getattr(mod, "FLOORS", {})
-    fl = floors.get(tier, floors) if floors and isinstance(next(iter(floors.values())), dict) else floors
+    if floors and isinstance(next(iter(floors.values())), dict):
+        # floors only guard against "the monitors observed (almost) nothing"; the thorough floor is 3x the quick one
+        fl = dict(floors.get("quick", {}))
+        if tier == "thorough":
+            fl = {k: 3 * v for k, v in fl.items()}
+    else:
+        fl = floors
     for k, need in (fl or {}).items():
         have = merged.evaluations if k == "evaluations" else (
             len(merged.distinct) + merged.distinct_extra if k == "distinct" else merged.counters.get(k, 0))
